@@ -37,7 +37,20 @@ type Case struct {
 	Cfg Cfg    `json:"cfg"`
 	PK  string `json:"pk"` // nil rotate val
 	V   *V     `json:"v,omitempty"`
+	// a history on ONE Filter: the case is its event number Step (0-based); the events before it only set the scene
+	Hist []HistStep `json:"hist,omitempty"`
+	Step int        `json:"step,omitempty"`
 }
+
+// one event of a history: the override table and (Rot > 0) the wrapper the filter is rotated to before it
+type HistStep struct {
+	Cfg Cfg    `json:"cfg"`
+	Rot int    `json:"rot,omitempty"`
+	PK  string `json:"pk"`
+	V   *V     `json:"v,omitempty"`
+}
+
+var histKeys = map[int]string{1: "k1", 3: "k3", 4: "k4"}
 
 func keyBytes(name string) []byte { h := sha256.Sum256([]byte("verif-" + name)); return h[:] }
 
@@ -94,8 +107,8 @@ func opOf(s string) (encrypt.FilterOperation, string) {
 
 var filterSalt, filterInfo = []byte("fsalt"), []byte("finfo")
 
-func mkFilter(c Cfg) *encrypt.Filter {
-	f := &encrypt.Filter{HmacSalt: filterSalt, HmacInfo: filterInfo}
+func setOverrides(f *encrypt.Filter, c Cfg) {
+	f.FilterOperationOverrides = nil
 	classes := []encrypt.DataClassification{encrypt.PublicClassification, encrypt.SensitiveClassification, encrypt.SecretClassification}
 	for i, o := range c.Ov {
 		if o != "" {
@@ -106,6 +119,11 @@ func mkFilter(c Cfg) *encrypt.Filter {
 			f.FilterOperationOverrides[classes[i]] = op
 		}
 	}
+}
+
+func mkFilter(c Cfg) *encrypt.Filter {
+	f := &encrypt.Filter{HmacSalt: filterSalt, HmacInfo: filterInfo}
+	setOverrides(f, c)
 	switch c.Wrap {
 	case "ok":
 		f.Wrapper = newAead("k1")
@@ -184,6 +202,9 @@ func payloadClass(pk string, v *V) int {
 	}
 	switch root.K {
 	case "struct":
+		if v.K != "ptr" {
+			return 14 // by value
+		}
 		return 1
 	case "slice":
 		return 2
@@ -225,9 +246,30 @@ type result struct {
 
 var fixedTime = time.Unix(1700000000, 0).UTC()
 
+// a history: the events before c.Step run on the same filter first; the case proper is event c.Step
 func execCase(c Case) (res result) {
+	if len(c.Hist) == 0 {
+		return execOn(mkFilter(c.Cfg), "k1", 1, c)
+	}
+	f := &encrypt.Filter{HmacSalt: filterSalt, HmacInfo: filterInfo, Wrapper: newAead("k1")}
+	keyID := 1
+	for i, h := range c.Hist {
+		setOverrides(f, h.Cfg)
+		if name, ok := histKeys[h.Rot]; ok {
+			f.Rotate(encrypt.WithWrapper(newAead(name)))
+			keyID = h.Rot
+		}
+		step := Case{ID: c.ID, Gen: c.Gen, Cfg: h.Cfg, PK: h.PK, V: h.V}
+		r := execOn(f, histKeys[keyID], keyID, step)
+		if i == c.Step {
+			return r
+		}
+	}
+	return res
+}
+
+func execOn(f *encrypt.Filter, keyName string, keyID int, c Case) (res result) {
 	ctx := context.Background()
-	f := mkFilter(c.Cfg)
 	cl := &classifier{canaries: map[string]int{}}
 	var pv interface{}
 	ewi := "None"
@@ -240,13 +282,18 @@ func execCase(c Case) (res result) {
 		collectInts(c.V, &cl.extra)
 		pv = valueOf(c.V).Interface()
 	}
-	cl.keys = []keyCand{{1, keyBytes("k1")}}
+	cl.keys = []keyCand{{keyID, keyBytes(keyName)}}
+	for id, name := range histKeys {
+		if id != keyID {
+			cl.keys = append(cl.keys, keyCand{id, keyBytes(name)})
+		}
+	}
 	cl.si = []saltInfo{{filterSalt, filterInfo}}
 	if i, ok := pv.(encrypt.EventWrapperInfo); ok {
 		id := 0
 		fmt.Sscanf(i.EventId(), "ev%d", &id)
 		ewi = "(Some " + hc.N(id) + ")"
-		cl.keys = append(cl.keys, keyCand{2, deriveEventKey(keyBytes("k1"), i.EventId())})
+		cl.keys = append(cl.keys, keyCand{2, deriveEventKey(keyBytes(keyName), i.EventId())})
 		for _, s := range [][]byte{filterSalt, i.HmacSalt()} {
 			for _, n := range [][]byte{filterInfo, i.HmacInfo()} {
 				cl.si = append(cl.si, saltInfo{s, n})
@@ -320,8 +367,8 @@ func execCase(c Case) (res result) {
 	_, o0 := opOf(c.Cfg.Ov[0])
 	_, o1 := opOf(c.Cfg.Ov[1])
 	_, o2 := opOf(c.Cfg.Ov[2])
-	res.lit = fmt.Sprintf("{| e_id := %s; e_class := %s; e_ov := {| ov_public := %s; ov_sensitive := %s; ov_secret := %s |}; e_wrap := %s; e_key := 1%%N; e_ekey := 2%%N; e_encfail := %s; e_hmacfail := %s;\n   e_payload := %s;\n   e_unchanged := %s; e_obs := %s |}",
-		hc.N(c.ID), hc.N(res.class), o0, o1, o2, hc.B(c.Cfg.Wrap != "absent"), hc.NList(c.Cfg.EncFail), hc.B(c.Cfg.Wrap == "failing"), payloadLit, hc.B(unchanged), obs)
+	res.lit = fmt.Sprintf("{| e_id := %s; e_class := %s; e_ov := {| ov_public := %s; ov_sensitive := %s; ov_secret := %s |}; e_wrap := %s; e_key := %s; e_ekey := 2%%N; e_encfail := %s; e_hmacfail := %s;\n   e_payload := %s;\n   e_unchanged := %s; e_obs := %s |}",
+		hc.N(c.ID), hc.N(res.class), o0, o1, o2, hc.B(c.Cfg.Wrap != "absent"), hc.N(keyID), hc.NList(c.Cfg.EncFail), hc.B(c.Cfg.Wrap == "failing"), payloadLit, hc.B(unchanged), obs)
 	res.nontriv = res.obs == "out" && res.outLit != res.inLit
 	return res
 }
@@ -385,6 +432,43 @@ func (e *emitter) emit(c Case) {
 			e.seen[key] = true
 			e.nontriv++
 		}
+	}
+}
+
+// every event of a history is a case of its own (judged under the table and key in force at that event)
+func (e *emitter) emitHistory(gen string, h []HistStep) {
+	for i := range h {
+		e.emit(Case{Gen: gen, Cfg: h[i].Cfg, PK: h[i].PK, V: h[i].V, Hist: h, Step: i})
+	}
+}
+
+// histories on one Filter: a few payload TYPES recur under changing override tables and wrappers
+func genHistories(e *emitter, r *hc.Rand, n int) {
+	g := &gen{r: r}
+	for k := 0; k < n; k++ {
+		g.canary = 0
+		var pool []*V
+		for i := 0; i < 2+g.r.Intn(2); i++ {
+			pool = append(pool, &V{K: "ptr", Elem: g.strct(1 + g.r.Intn(2))})
+		}
+		var h []HistStep
+		for i := 0; i < 4+g.r.Intn(4); i++ {
+			var c Cfg
+			c.Wrap = "ok"
+			if g.r.Chance(3, 5) {
+				for j := range c.Ov {
+					if g.r.Chance(1, 2) {
+						c.Ov[j] = ovTexts[1+g.r.Intn(4)]
+					}
+				}
+			}
+			st := HistStep{Cfg: c, PK: "val", V: g.cloneFresh(pool[g.r.Intn(len(pool))])}
+			if g.r.Chance(1, 4) {
+				st.Rot = []int{1, 3, 4}[g.r.Intn(3)]
+			}
+			h = append(h, st)
+		}
+		e.emitHistory("history", h)
 	}
 }
 
@@ -494,6 +578,10 @@ func runCorpus(e *emitter, path string) {
 			continue
 		}
 		c.Gen = "corpus"
+		if len(c.Hist) > 0 {
+			e.emitHistory("corpus", c.Hist)
+			continue
+		}
 		e.emit(c)
 	}
 }
@@ -505,6 +593,7 @@ func main() {
 	prefix := flag.String("prefix", "cases", "case file prefix")
 	modes := flag.String("modes", "special,tagtable,random", "generators: special tagtable tagtable-full random enum")
 	nRandom := flag.Int("random", 1500, "random trees")
+	nHist := flag.Int("histories", 200, "histories of events on one filter (mode history)")
 	depth := flag.Int("depth", 4, "max depth of random trees")
 	enumDepth := flag.Int("enum-depth", 2, "depth of the exhaustive enumeration")
 	enumBudget := flag.Int("enum-budget", 0, "max enumerated cases (0 = unlimited)")
@@ -513,6 +602,7 @@ func main() {
 	replay := flag.String("replay", "", "replay one JSON case and print its observations")
 	crypto := flag.Bool("crypto", false, "C16 mode: key selection, rotation and value formats")
 	nCrypto := flag.Int("crypto-histories", 300, "C16 mode: number of random histories")
+	concOnly := flag.Bool("crypto-conc-only", false, "C16 mode: only the events processed concurrently with rotations")
 	flag.Parse()
 
 	if *replay != "" {
@@ -531,6 +621,16 @@ func main() {
 		if err := json.Unmarshal(data, &w); err != nil || w.Case.PK == "" {
 			_ = json.Unmarshal(data, &w.Case)
 		}
+		if len(w.Case.Hist) > 0 {
+			fmt.Printf("history of %d events on one filter; the case is event %d\n", len(w.Case.Hist), w.Case.Step)
+			for i := 0; i <= w.Case.Step && i < len(w.Case.Hist); i++ {
+				c := w.Case
+				c.Step = i
+				r := execCase(c)
+				fmt.Printf("event %d: overrides %v rotate-to %d\n  input : %s\n  result: %s %s\n  output: %s\n", i, c.Hist[i].Cfg.Ov, c.Hist[i].Rot, r.inLit, r.obs, r.errText, r.outLit)
+			}
+			return
+		}
 		r := execCase(w.Case)
 		fmt.Printf("configuration: %+v\ninput : %s\nresult: %s %s\noutput: %s\n", w.Case.Cfg, r.inLit, r.obs, r.errText, r.outLit)
 		if r.panicV != nil {
@@ -539,7 +639,7 @@ func main() {
 		return
 	}
 	if *crypto {
-		mainCrypto(*out, *prefix, *perShard, *nCrypto, *corpus)
+		mainCrypto(*out, *prefix, *perShard, *nCrypto, *corpus, *concOnly)
 		return
 	}
 
@@ -568,6 +668,8 @@ func main() {
 			summary["tagtable_exhaustive"] = "6 class spellings x 8 operation spellings (+ no tag, 3 odd tags) x 6^3 override tables"
 		case "random":
 			genRandom(e, r.Fork(), *nRandom, *depth)
+		case "history":
+			genHistories(e, r.Fork(), *nHist)
 		case "enum":
 			n, complete := genEnum(e, *enumDepth, *enumBudget)
 			summary["enum_depth"] = *enumDepth
